@@ -194,6 +194,15 @@ func genMetaPlan(c *Chooser, p *RPCPlan, binMode int) {
 	ops = append(ops, Op{Kind: OpReturn, St: st})
 	p.Handler = ops
 
+	// a request larger than the flow-control window whose handler fails without
+	// reading it: the caller is blocked in its send when the RPC is finished
+	if (p.Shape == ShapeUnary || p.Shape == ShapeClientStream) && st != nil && c.Intn(8, "bigreject") == 7 {
+		p.ReqSizes = []int{70000 + c.Intn(60000, "bigrejectsz")}
+		p.Handler = []Op{{Kind: OpReturn, St: st}}
+		if p.Shape == ShapeClientStream {
+			p.CallerSend = []Op{{Kind: OpSendAll}, {Kind: OpCloseSend}}
+		}
+	}
 	// request metadata
 	switch c.Intn(5, "reqmdkind") {
 	case 0:
